@@ -790,6 +790,76 @@ func (x *Exec) binop(fr *Frame, op token.Token, a, b Val, rt types.Type, hint st
 	return x.freshVal(hint, rt)
 }
 
+// convertTerm is Go's numeric conversion to(v) as a term without definitions or assumptions, so
+// that it may stand under a spec quantifier (spec builtin goconv). It mirrors convert below:
+// integer narrowing wraps, float/float and integer/float round to nearest even, float to integer
+// is the uninterpreted per-type-pair function convert uses.
+func (x *Exec) convertTerm(v Val, to types.Type) (Val, bool) {
+	from := v.T
+	if from == nil {
+		return v, false
+	}
+	switch {
+	case isInteger(from) && isInteger(to):
+		flo, fhi, _, _ := intRange(from)
+		tlo, thi, _, _ := intRange(to)
+		fl, _ := parseBig(flo)
+		fh, _ := parseBig(fhi)
+		tl, _ := parseBig(tlo)
+		th, _ := parseBig(thi)
+		if fl.Cmp(tl) >= 0 && fh.Cmp(th) <= 0 {
+			return Val{T: to, C: v.C}, true
+		}
+		return Val{T: to, C: []string{wrapInt(v.C[0], to)}}, true
+	case isFloat(from) && isFloat(to):
+		if layout(from)[0].Sort == layout(to)[0].Sort {
+			return Val{T: to, C: v.C}, true
+		}
+		if layout(to)[0].Sort == SF64 {
+			return Val{T: to, C: []string{sx("(_ to_fp 11 53)", "RNE", v.C[0])}}, true
+		}
+		return Val{T: to, C: []string{sx("(_ to_fp 8 24)", "RNE", v.C[0])}}, true
+	case isInteger(from) && isFloat(to):
+		return Val{T: to, C: []string{x.intToFloat(v.C[0], layout(to)[0].Sort)}}, true
+	case isFloat(from) && isInteger(to):
+		fs := "f64"
+		if layout(from)[0].Sort == SF32 {
+			fs = "f32"
+		}
+		name := fmt.Sprintf("%s_to_%s", fs, typeKey(to))
+		x.uninterp(name, []string{layout(from)[0].Sort}, SInt)
+		return Val{T: to, C: []string{sx(name, v.C[0])}}, true
+	}
+	return v, false
+}
+
+// intToFloat is Go's conversion of an integer to float32 / float64. Literals keep the SMT meaning
+// (round to nearest even of the real value); for any other term the conversion is an
+// uninterpreted function of the integer (int_to_f32 / int_to_f64): the solvers do not decide
+// to_fp over to_real of an unbounded integer variable under quantifiers, and no contract relies on
+// the numeric value - only on "the same conversion of the same integer".
+func (x *Exec) intToFloat(term string, sort string) string {
+	lit := true
+	for _, c := range strings.TrimSpace(term) {
+		if !(c >= '0' && c <= '9') && c != '-' && c != '(' && c != ')' && c != ' ' {
+			lit = false
+			break
+		}
+	}
+	if lit {
+		if sort == SF64 {
+			return sx("(_ to_fp 11 53)", "RNE", sx("to_real", term))
+		}
+		return sx("(_ to_fp 8 24)", "RNE", sx("to_real", term))
+	}
+	name := "int_to_f32"
+	if sort == SF64 {
+		name = "int_to_f64"
+	}
+	x.uninterp(name, []string{SInt}, sort)
+	return sx(name, term)
+}
+
 func (x *Exec) convert(fr *Frame, v Val, to types.Type, hint string) Val {
 	from := v.T
 	switch {
@@ -813,10 +883,7 @@ func (x *Exec) convert(fr *Frame, v Val, to types.Type, hint string) Val {
 		}
 		return Val{T: to, C: []string{sx("(_ to_fp 8 24)", "RNE", v.C[0])}}
 	case isInteger(from) && isFloat(to):
-		if layout(to)[0].Sort == SF64 {
-			return Val{T: to, C: []string{sx("(_ to_fp 11 53)", "RNE", sx("to_real", v.C[0]))}}
-		}
-		return Val{T: to, C: []string{sx("(_ to_fp 8 24)", "RNE", sx("to_real", v.C[0]))}}
+		return Val{T: to, C: []string{x.intToFloat(v.C[0], layout(to)[0].Sort)}}
 	case isFloat(from) && isInteger(to):
 		fs := "f64"
 		if layout(from)[0].Sort == SF32 {
